@@ -100,6 +100,7 @@ func Run(run *kernel.Run, p Params) {
 	fxRef, _ := Build(spec)
 	fxObs, _ := Build(spec)
 	wantObs := fxObs.Observe()
+	wantRaw := fxObs.ObserveRaw()
 
 	estSteps := uint64(0)
 	for _, l := range ops {
@@ -223,6 +224,9 @@ func Run(run *kernel.Run, p Params) {
 				}
 			}
 		}
+	}
+	if fx.ObserveRaw() != wantRaw {
+		run.Probe("shared_point_raw_representation_changed")
 	}
 	if got := fx.Observe(); got != wantObs {
 		was, now := abbreviate(wantObs, got)
